@@ -342,6 +342,20 @@ theorem poll_pushed_pending_is_registered (s s' : Streams) (k : Nat) (tag : Stri
 example : (match (W3.p3.refPollPushed 0 "q0").2 with | .pending => true | _ => false) = true :=
   W3.data_end_stream_wakes_push_example.1
 
+/-- **F35 (positive).**  `drop_stream_ref` of the last reference besides the connection's own (`refs = 2` before the
+    call: a `SendRequest` drops its `Streams` handle BEFORE its `pending` stream reference, so that reference can
+    be the last one) wakes the parked connection task — for every stream, in every state: the idle client gets
+    polled, sees that nobody is left and closes itself.  Before the repair nothing woke it. -/
+theorem drop_last_reference_wakes_connection (s : Streams) (k : Nat) (hrefs : s.refs = 2) :
+    TaskWoken s (s.dropStreamRef k) :=
+  dropStreamRef_last_ref_woken hrefs
+
+/-- … on the witness: `SendRequest` with a pending stream dropped while the connection task `c` is parked -/
+theorem drop_last_reference_wakes_connection_example :
+    F35.f2.refs = 2 ∧ F35.f2.actions.task = some "c" ∧ F35.f3.refs = 1 ∧ "c" ∈ F35.f3.wakes ∧
+    F35.f3.actions.task = none :=
+  F35.last_stream_ref_wakes_connection_example
+
 end H2V.Props.C06
 
 #print axioms H2V.Props.C06.no_waker_dropped_silently
@@ -370,3 +384,5 @@ end H2V.Props.C06
 #print axioms H2V.Props.C06.data_end_stream_wakes_push_waiter
 #print axioms H2V.Props.C06.data_end_stream_after_dropped_body_wakes_push_example
 #print axioms H2V.Props.C06.poll_pushed_pending_is_registered
+#print axioms H2V.Props.C06.drop_last_reference_wakes_connection
+#print axioms H2V.Props.C06.drop_last_reference_wakes_connection_example
